@@ -418,6 +418,9 @@ func (ij *invalidationJob) Execute() error {
 	case ij.nsKey == coreAuditConfigPath || ij.nsKey == coreLocalAuditConfigPath:
 		ij.fatal = true
 		return ij.auditInvalidation(ctx)
+	case ij.nsKey == barrier.SystemBarrierPrefix+auditedHeadersSubPath+auditedHeadersEntry:
+		ij.fatal = true
+		return ij.im.core.auditedHeaders.invalidate(ctx)
 	case isLegacyMountPath(ij.nsKey):
 		ij.fatal = true
 		return ij.legacyMountInvalidation(ctx)
